@@ -1152,3 +1152,93 @@ class MChild(Monitor):
 
     def state(self):
         return [self.child_running, self.child_term is not None, self.parent_task_done, self.timeout_step is not None, sorted(self.flagged), len(self.valid_cb_steps)]
+
+# ------------------------------------------------------------------------------------------------------
+class MRoute(Monitor):
+    """C19 affinity: start events travel through the shared queue, every later event of an execution reaches the instance
+    that consumed its start; RPC requests carry that instance's reply queue and the task event's id; replies return there."""
+    name = "M-route"
+    def __init__(self, scenario):
+        super().__init__()
+        self.owner = {}          # arn -> connection name that consumed its first event
+        self.unacked_events = {} # connection name -> {message id: arn}
+        self.flagged = set()
+        self.shared = "asl_workflow_events" + ("-qq" if scenario.get("queue_type") == "quorum" else "")
+        self.suffix = "-qq" if scenario.get("queue_type") == "quorum" else ""
+        self.requests = {}       # correlation id -> connection name that issued it
+        self.sync_children = set()
+
+    def _flag(self, w, key, kind, detail, arn=None, site=None, **extra):
+        if key in self.flagged:
+            return
+        self.flagged.add(key)
+        self.flag(w, kind, detail, arn, site, **extra)
+
+    def _inst_id(self, w, conn_name):
+        for inst in w.instances:
+            if inst.conn is not None and inst.conn.name == conn_name:
+                return inst.config["event_queue"]["instance_id"]
+        return None
+
+    def on_op(self, w, op):
+        k = op["op"]
+        if k == "deliver" and op.get("arn"):
+            q, conn, arn = op["queue"], op["connection"], op["arn"]
+            if q.startswith("asl_workflow_events"):
+                if arn not in self.owner:
+                    self.owner[arn] = conn
+                elif self.owner[arn] != conn:
+                    self._flag(w, ("owner", arn), "event_delivered_to_other_instance", "an event of an execution started on %s was delivered to %s (queue %s)" % (self.owner[arn], conn, q), arn, None, queue=q.replace(self.suffix, ""))
+                if q != self.shared:
+                    iid = self._inst_id(w, conn)
+                    if q != self.shared + "-" + str(iid):
+                        self._flag(w, ("queue", q), "instance_queue_consumed_by_other", "queue %s consumed by instance %s" % (q, iid), arn, None)
+                self.unacked_events.setdefault(conn, {})[op.get("message_id")] = arn
+        elif k == "publish" and w.step_no > 0:
+            rk = op.get("routing_key")
+            conn = op.get("connection")
+            if op.get("arn") and op.get("exchange") == "" and str(rk).startswith("asl_workflow_events"):
+                try:
+                    ctx = json.loads(op["body"].decode("utf8"))["context"]
+                    name = (ctx.get("State") or {}).get("Name")
+                except Exception:
+                    name = None
+                arn = op["arn"]
+                if rk == self.shared:
+                    if name:
+                        self._flag(w, ("shared", arn), "transition_event_on_shared_queue", "an event for state %r was published to the shared queue" % name, arn, op.get("site"), state=name)
+                else:
+                    iid = self._inst_id(w, conn)
+                    if conn != "env" and rk != self.shared + "-" + str(iid):
+                        self._flag(w, ("inst", arn), "event_published_to_other_instance", "instance %s published an event to %s" % (iid, rk), arn, op.get("site"))
+                    if not name and conn != "env" and str(w.cur_kind).startswith("api"):
+                        self._flag(w, ("apiinst", arn), "start_event_not_on_shared_queue", "StartExecution put the start event on %s" % rk, arn, op.get("site"))
+                    elif not name and conn != "env":
+                        self.sync_children.add(arn)
+                    if not name and conn == "env":
+                        self._flag(w, ("envinst", arn), "start_event_not_on_shared_queue", "a start event was put on %s" % rk, arn, None)
+                if not name and rk != self.shared and conn != "env" and arn not in self.owner:
+                    # a synchronous child launch stays with the launching instance
+                    self.owner[arn] = conn
+            elif rk in w.workers and op.get("exchange") == "":
+                iid = self._inst_id(w, conn)
+                want_reply = "asl_workflow_reply_to" + self.suffix + "-" + str(iid)
+                if op.get("reply_to") != want_reply:
+                    self._flag(w, ("reply", rk), "wrong_reply_to", "request to %s carries reply_to %r, expected %r" % (rk, op.get("reply_to"), want_reply), None, op.get("site"), queue=rk)
+                cid = (op.get("correlation_id") or "")
+                base = cid.split(".")[0]
+                if base not in self.unacked_events.get(conn, {}):
+                    self._flag(w, ("cid", rk), "wrong_correlation_id", "request to %s carries correlation id %r which is not the id of a task event held by %s" % (rk, cid, conn), None, op.get("site"), queue=rk)
+                if not op.get("mandatory"):
+                    self._flag(w, ("mand", rk), "request_not_mandatory", "request to %s is not published as mandatory" % rk, None, op.get("site"), queue=rk)
+                self.requests[cid] = conn
+        elif k == "deliver" and op.get("queue", "").startswith("asl_workflow_reply_to"):
+            cid = op.get("correlation_id")
+            conn = op["connection"]
+            if cid in self.requests and self.requests[cid] != conn:
+                self._flag(w, ("rdel", cid), "reply_delivered_to_other_instance", "the reply to a request of %s was delivered to %s" % (self.requests[cid], conn), None, None)
+        elif k == "ack" and op.get("queue", "").startswith("asl_workflow_events"):
+            self.unacked_events.get(op.get("connection"), {}).pop(op.get("message_id"), None)
+
+    def state(self):
+        return [sorted(self.owner.items()), sorted(map(str, self.flagged))]
